@@ -1,6 +1,6 @@
 //! C01 — the lossless reader reproduces every byte, however the bytes are delivered.
 use crate::core::driver::{key_of, Obs, Scenario, Tier, Violation};
-use crate::core::io::{gen_read_plan, shrink_read_plan, ReadPlan, SimReader};
+use crate::core::io::{gen_read_plan, shrink_read_plan, ReadPlan, ReadStep, SimReader};
 use crate::core::probe;
 use crate::core::rng::Rng;
 use crate::gen::text;
@@ -100,7 +100,30 @@ impl Scenario for C01 {
                "stub": ["byte source behind std::io::Read (SimReader: chunking, EINTR, early EOF, hard errors)", "stored bytes (SimDisk image with injected byte faults)", "getrandom (hasher seeds)"]})
     }
 
-    fn generate(rng: &mut Rng, _tier: Tier, _k: u64) -> Case {
+    fn generate(rng: &mut Rng, _tier: Tier, k: u64) -> Case {
+        // size thresholds: one document past 4 MiB per check, a few past 1 MiB (buffer sizes, caps, u16/u24 lengths);
+        // larger ones do not fit the per-run watchdog (a 17 MiB document takes over 15 s through the eight entry points)
+        if k == 0 || (k % 50_000 == 7) {
+            let f = text::DocFlags { max_paras: 3, ..text::DocFlags::swarm(rng) };
+            let unit = {
+                let mut u = text::doc(rng, &f);
+                if !u.ends_with('\n') {
+                    u.push('\n');
+                }
+                if u.trim().is_empty() {
+                    u = "Package: a\nDescription: x\n y\n".to_string();
+                }
+                u.push('\n');
+                u
+            };
+            let target = if k == 0 { (4 << 20) + rng.below(1 << 19) } else { (1 << 20) + rng.below(1 << 19) };
+            let mut text = String::with_capacity(target + unit.len());
+            while text.len() < target {
+                text.push_str(&unit);
+            }
+            let plan = if rng.chance(1, 2) { ReadPlan::default() } else { ReadPlan { steps: vec![ReadStep::Chunk(1 << 16), ReadStep::Eintr, ReadStep::Chunk(4096), ReadStep::Rest], cut: None } };
+            return Case { text, source: "wellformed-large".to_string(), faults: vec![], flip: None, plan, followup: None, on_disk: false };
+        }
         let (text, source, faults) = match rng.below(10) {
             0..=3 => {
                 let f = text::DocFlags::swarm(rng);
@@ -521,6 +544,23 @@ impl Scenario for C01 {
 
     fn shrink(c: &Case) -> Vec<Case> {
         let mut out = Vec::new();
+        if c.text.len() > (256 << 10) {
+            // large documents: halve at line boundaries, nothing finer (each candidate costs seconds)
+            let cut = |at: usize| c.text[..at].rfind('\n').map(|i| i + 1).unwrap_or(0);
+            let mid = cut(c.text.len() / 2);
+            let q3 = cut(c.text.len() / 4 * 3);
+            for t in [c.text[..mid].to_string(), c.text[mid..].to_string(), c.text[..q3].to_string()] {
+                if !t.is_empty() && t.len() < c.text.len() {
+                    let mut n = Case { text: t, faults: vec![], flip: None, ..c.clone() };
+                    if let Some(cutp) = &mut n.plan.cut {
+                        cutp.at = cutp.at.min(n.text.len());
+                    }
+                    out.push(n);
+                }
+            }
+            out.push(Case { plan: ReadPlan::default(), ..c.clone() });
+            return out;
+        }
         for p in shrink_read_plan(&c.plan) {
             out.push(Case { plan: p, ..c.clone() });
         }
